@@ -249,6 +249,37 @@ var robustHostileNames = []string{"", ".", "./", "..", "../x", "a/..", "a/../.."
 
 var robustBoundary = []string{"", "\n", "\x00", "a", ":", "\x1f\x8b", "\x1f\x8b\x08\x00\x00\x00\x00\x00\x00\xff", "\n\n\n", "=", "{", "[", "---", "P:", "C:Q1", "'", "K='", "K='x", "K=\"", "include: @SELF@\n"}
 
+// Inputs that made fs.WalkDir run forever (or list entries named "." / "..") before the repairs F17g/F17h.
+// One per case (cases 1..n): a hang costs the 10 s watchdog, and the engine's per-case limit is 20 s, so
+// only one input per case may hang if the hang is to be attributed to its input.
+var robustLinkApks = [][]SFile{
+	// a link entry whose target is a directory, placed inside that directory: the node graph gets a
+	// cycle and the layer writer's fs.WalkDir never returns (F17h)
+	{{Path: "a", Type: "dir", Mode: 0o755}, {Path: "a/b", Type: "dir", Mode: 0o755}, {Path: "a/b/x", Type: "hardlink", Mode: 0o755, Link: "a"}},
+	{{Path: "a", Type: "dir", Mode: 0o755}, {Path: "a/x", Type: "hardlink", Mode: 0o755, Link: "."}},
+	// entries whose last element is "." or "..": they must not become children of that name (F17g)
+	{{Path: "a", Type: "dir", Mode: 0o755}, {Path: "a/..", Type: "symlink", Mode: 0o777, Link: "x"}},
+	{{Path: "a", Type: "dir", Mode: 0o755}, {Path: "a/b", Type: "dir", Mode: 0o755}, {Path: "a/b/..", Type: "file", Mode: 0o644, Content: "x"}, {Path: "a/.", Type: "file", Mode: 0o644, Content: "y"}},
+	{{Path: "a", Type: "dir", Mode: 0o755}, {Path: "a/f", Type: "file", Mode: 0o644, Content: "x"}, {Path: "a/..", Type: "hardlink", Mode: 0o644, Link: "a/f"}},
+}
+
+var robustLinkPaths = [][]types.PathMutation{
+	{{Path: "/usr/x", Type: "hardlink", Source: "/usr"}},
+	{{Path: "/usr/lib/up", Type: "hardlink", Source: "/usr"}, {Path: "/usr", Type: "directory", Permissions: 0o755, Recursive: true}},
+	{{Path: "/opt/loop", Type: "hardlink", Source: "/"}, {Path: "/opt", Type: "directory", Permissions: 0o755, Recursive: true}},
+	{{Path: "/usr/..", Type: "symlink", Source: "x"}, {Path: "/usr/.", Type: "empty-file"}, {Path: "/usr/lib/..", Type: "hardlink", Source: "/usr/f"}},
+	{{Path: "/usr/f2", Type: "hardlink", Source: "/usr/f"}, {Path: "/usr", Type: "directory", Permissions: 0o755, Recursive: true}},
+}
+
+func robustHasBuild(c robustCase) bool {
+	for _, in := range c.Inputs {
+		if in.Reader == "hostile-apk" || in.Reader == "hostile-paths" {
+			return true
+		}
+	}
+	return false
+}
+
 func (robustSuite) Gen(r *Rng, i int, tier string) any {
 	var c robustCase
 	add := func(reader string, data []byte) { c.Inputs = append(c.Inputs, robustInput{reader, hex.EncodeToString(data)}) }
@@ -272,7 +303,17 @@ func (robustSuite) Gen(r *Rng, i int, tier string) any {
 		}
 		return c
 	}
+	if i >= 1 && i <= len(robustLinkApks) {
+		b, _ := json.Marshal(robustLinkApks[i-1])
+		add("hostile-apk", b)
+	} else if j := i - 1 - len(robustLinkApks); j >= 0 && j < len(robustLinkPaths) {
+		b, _ := json.Marshal(robustLinkPaths[j])
+		add("hostile-paths", b)
+	}
 	n := 60
+	if len(c.Inputs) > 0 {
+		n = 12 // leave room for the watchdog of the first input inside the per-case limit
+	}
 	for k := 0; k < n; k++ {
 		switch r.Intn(14) {
 		case 0:
@@ -331,6 +372,25 @@ func (robustSuite) Gen(r *Rng, i int, tier string) any {
 			add(rd, robustMutate(r, robustApkSeed(), false))
 		default:
 			// hostile tar entry names through the lazy in-memory file system and the installed-db writer
+			if i > len(robustLinkApks)+len(robustLinkPaths) && !robustHasBuild(c) && r.Chance(12) {
+				// hostile link entries / dotted names through a whole build (at most one per case, see robustLinkApks)
+				files := []SFile{{Path: "a", Type: "dir", Mode: 0o755}, {Path: "a/b", Type: "dir", Mode: 0o755}, {Path: "a/f", Type: "file", Mode: 0o644, Content: "x"}}
+				for k := r.Range(1, 3); k > 0; k-- {
+					files = append(files, SFile{Path: Pick(r, []string{"a/x", "a/b/x", "a/..", "a/b/.", "a/b/..", "y", "a/b/y"}), Type: Pick(r, []string{"hardlink", "hardlink", "symlink", "file"}),
+						Mode: 0o644, Link: Pick(r, []string{"a", "a/b", ".", "a/f", "/a", "a/b/x", "missing"}), Content: "z"})
+				}
+				b, _ := json.Marshal(files)
+				add("hostile-apk", b)
+				break
+			}
+			if i > len(robustLinkApks)+len(robustLinkPaths) && !robustHasBuild(c) && r.Chance(8) {
+				paths := []types.PathMutation{{Path: Pick(r, []string{"/usr/x", "/usr/lib/x", "/usr/..", "/usr/lib/.", "/x"}), Type: Pick(r, []string{"hardlink", "hardlink", "symlink", "empty-file"}),
+					Source: Pick(r, []string{"/usr", "/", "/usr/lib", "/usr/f", "usr", "/missing"})},
+					{Path: Pick(r, []string{"/usr", "/", "/usr/lib"}), Type: "directory", Permissions: 0o755, Recursive: true}}
+				b, _ := json.Marshal(paths)
+				add("hostile-paths", b)
+				break
+			}
 			names := []string{Pick(r, robustHostileNames), Pick(r, robustHostileNames)}
 			add(Pick(r, []string{"tarfs-names", "idb-names"}), []byte(strings.Join(names, "\x01")))
 		}
@@ -574,6 +634,19 @@ func robustApply(reader string, data []byte) (ans string) {
 		repo := BuildSynthRepo([]SPkg{{Name: "h", Version: "1.0-r0", Origin: "h", Files: files}}, []string{"x86_64"})
 		var ic types.ImageConfiguration
 		ic.Contents.Packages = []string{"h"}
+		out := e2eBuild(ic, repo, E2EOpts{Archs: []string{"x86_64"}})
+		return okErr(out.Err)
+	case "hostile-paths":
+		// a whole build whose image configuration carries hostile path mutations
+		var paths []types.PathMutation
+		if err := json.Unmarshal(data, &paths); err != nil {
+			return "unknown-reader"
+		}
+		repo := BuildSynthRepo([]SPkg{{Name: "h", Version: "1.0-r0", Origin: "h", Files: []SFile{
+			{Path: "usr", Type: "dir", Mode: 0o755}, {Path: "usr/lib", Type: "dir", Mode: 0o755}, {Path: "usr/f", Type: "file", Mode: 0o644, Content: "x"}}}}, []string{"x86_64"})
+		var ic types.ImageConfiguration
+		ic.Contents.Packages = []string{"h"}
+		ic.Paths = paths
 		out := e2eBuild(ic, repo, E2EOpts{Archs: []string{"x86_64"}})
 		return okErr(out.Err)
 	case "tarfs-names":
